@@ -61,6 +61,21 @@ func lex(src string) ([]tok, error) {
 			for j < len(rs) && unicode.IsDigit(rs[j]) {
 				j++
 			}
+			if j+1 < len(rs) && rs[j] == '.' && unicode.IsDigit(rs[j+1]) {
+				j++
+				for j < len(rs) && unicode.IsDigit(rs[j]) {
+					j++
+				}
+				if j+1 < len(rs) && (rs[j] == 'e' || rs[j] == 'E') && (unicode.IsDigit(rs[j+1]) || ((rs[j+1] == '-' || rs[j+1] == '+') && j+2 < len(rs) && unicode.IsDigit(rs[j+2]))) {
+					j += 2
+					for j < len(rs) && unicode.IsDigit(rs[j]) {
+						j++
+					}
+				}
+				toks = append(toks, tok{kind: "float", s: string(rs[i:j])})
+				i = j
+				continue
+			}
 			toks = append(toks, tok{kind: "int", s: string(rs[i:j])})
 			i = j
 		case r == '_' || unicode.IsUpper(r):
@@ -258,6 +273,12 @@ func (r *reader) primary(max int) (Term, int, error) {
 			return nil, 0, err
 		}
 		return Int(v), 0, nil
+	case "float":
+		v, err := strconv.ParseFloat(t.s, 64)
+		if err != nil {
+			return nil, 0, err
+		}
+		return Flt(v), 0, nil
 	case "var":
 		if t.s == "_" {
 			anonSeq++
@@ -359,6 +380,11 @@ func (r *reader) primary(max int) (Term, int, error) {
 				r.pos++
 				v, _ := strconv.ParseInt("-"+p.s, 10, 64)
 				return Int(v), 0, nil
+			}
+			if p := r.peek(); p.kind == "float" {
+				r.pos++
+				v, _ := strconv.ParseFloat("-"+p.s, 64)
+				return Flt(v), 0, nil
 			}
 		}
 		if op, ok := prefixOps[t.s]; ok {
